@@ -22,6 +22,7 @@ import SccacheModel.Driver.RustArgs
 import SccacheModel.Driver.RustKey
 import SccacheModel.Driver.Shutdown
 import SccacheModel.Driver.AtFile
+import SccacheModel.Driver.Frame
 
 /-- `modeld <model>`: line-protocol driver, one sub-command per executable model (DESIGN.md C.1) -/
 def main (args : List String) : IO UInt32 := do
@@ -51,4 +52,5 @@ def main (args : List String) : IO UInt32 := do
   | ["rustkey"] => DrvRustKey.main *> pure 0
   | ["shutdown"] => DrvShutdown.main *> pure 0
   | ["atfile"] => DrvAtFile.main *> pure 0
+  | ["frame"] => DrvFrame.main *> pure 0
   | _ => do IO.eprintln "usage: modeld <model>"; pure 2
